@@ -43,8 +43,9 @@ impl FromStr for Action {
                 }
             }
         } else if chars.len() == 3 {
-            if let Ok(square) = s[..2].parse::<Square>() {
-                if let Ok(dir) = s[2..].parse::<Direction>() {
+            let square: String = chars[..2].iter().collect();
+            if let Ok(square) = square.parse::<Square>() {
+                if let Ok(dir) = chars[2].to_string().parse::<Direction>() {
                     return Ok(Action::Move(square, dir));
                 }
             }
